@@ -45,7 +45,7 @@ def eval_perm(model, m, slots):
     try: return tuple(slots.index(d[s]) for s in slots)
     except (KeyError, ValueError): return None
 
-def unit_case(S_, n, ngens, with_query, stats, findings, inconclusive):
+def unit_case(S_, n, ngens, with_query, stats, findings, inconclusive, fixed=()):
     R = S_.resolver; R.tymap.clear(); R.tymap.update({'P': 'SlotMap'})
     ex = S_.executor()
     G = lambda name: R.M('Group::' + name)
@@ -54,7 +54,7 @@ def unit_case(S_, n, ngens, with_query, stats, findings, inconclusive):
     def entry(ex_):
         for g in gens: g.constrain(ex_)
         ident = {'i': mk_map([(z3.BitVecVal(s, 32), z3.BitVecVal(s, 32)) for s in slots])}
-        hs = HS([g.map() for g in gens])
+        hs = HS([mk_map([(z3.BitVecVal(slots[i], 32), z3.BitVecVal(slots[fp[i]], 32)) for i in range(n)]) for fp in fixed] + [g.map() for g in gens])
         # the generator set is a set: duplicates collapse (decided by the solver)
         uniq = HS()
         for x in hs.items:
@@ -76,7 +76,8 @@ def unit_case(S_, n, ngens, with_query, stats, findings, inconclusive):
             c2 = ex_.call(G('contains'), [Ref(g2, 'g'), Ref(qm2, 'q')]); out['contains2'] = ex_.decide(c2) if z3.is_expr(c2) else bool(c2)
         return out
     allvars = [v for g in gens for v in g.imgs] + ((q.imgs + p_add.imgs) if with_query else [])
-    name = 'Group on %d slots, %d symbolic generator(s)%s' % (n, ngens, ', symbolic membership query and added permutation' if with_query else '')
+    name = 'Group on %d slots, %d symbolic generator(s)%s%s' % (n, ngens, ', symbolic membership query and added permutation' if with_query else '',
+                                                            (' next to the concrete generator(s) %s' % (list(fixed),)) if fixed else '')
     t0 = time.time(); n_paths = 0; n_tuples = 0; bad = 0
     try:
         for pth in ex.explore(entry, max_paths=20000):
@@ -84,7 +85,7 @@ def unit_case(S_, n, ngens, with_query, stats, findings, inconclusive):
             s = z3.Solver(); s.add(*pth['pc'])
             while s.check() == z3.sat:
                 m = s.model(); n_tuples += 1
-                gv = [g.value(m) for g in gens]
+                gv = [tuple(fp) for fp in fixed] + [g.value(m) for g in gens]
                 s.add(z3.Or(*[v != m.eval(v, model_completion=True) for v in allvars]))
                 if pth['kind'] == 'panic':
                     findings.append({'n': n, 'gens': gv, 'what': 'panic: ' + pth['result']['msg'], 'q': q.value(m) if with_query else None, 'p': p_add.value(m) if with_query else None}); bad += 1; continue
